@@ -183,6 +183,7 @@ func cmdCheck(args []string) {
 		// the tree does not build: nothing can be decided
 		fmt.Printf("UNDECIDED property=%s: cannot load packages: %v\n", *prop, err)
 		writeEvidence(*verif, *prop, *tier, seed, t0, nil, nil, []string{"load error: " + err.Error()}, cfg, 0, nil)
+		os.RemoveAll(scratch)
 		os.Exit(0)
 	}
 	for _, p := range P.cs.Problems {
@@ -404,6 +405,7 @@ func cmdCheck(args []string) {
 	writeEvidence(*verif, *prop, *tier, seed, t0, cov, samples, asm, cfg, violations, []int{nClaimed, nDischarged})
 	fmt.Printf("property=%s tier=%s functions=%d claimed=%d discharged=%d violations=%d wall=%.1fs\n", *prop, *tier, len(fns), nClaimed, nDischarged, violations, time.Since(t0).Seconds())
 	if violations > 0 {
+		os.RemoveAll(scratch) // os.Exit skips the deferred removal
 		os.Exit(1)
 	}
 }
